@@ -31,6 +31,14 @@
 #include "iora/network/transport_impl.hpp"
 #include "iora/parsers/http_message.hpp"
 
+#ifdef JOEGEN_IORA_VERIF
+// Verification seam (add-only, compiled out unless JOEGEN_IORA_VERIF is defined):
+// the in-process framing harness defines iora::verif::HttpServerProbe to create a
+// per-connection record and to observe the worker pool / retained buffer.
+#define JOEGEN_IORA_VERIF_HTTP_SERVER_PROBE 1
+namespace iora { namespace verif { struct HttpServerProbe; } }
+#endif
+
 namespace iora
 {
 namespace network
@@ -1641,6 +1649,9 @@ protected:
   friend class SseStream;
   friend void upgradeToSse(HttpServer &server, const Request &req, Response &res,
                            std::function<void(std::shared_ptr<SseStream>)> onConnect);
+#ifdef JOEGEN_IORA_VERIF
+  friend struct ::iora::verif::HttpServerProbe;
+#endif
 
 private:
   // ── Pattern routing (exact / named-segment / trailing-wildcard) ──────────
